@@ -58,7 +58,10 @@ func (fr *Frame) doUnlock(id Term, pos token.Pos) {
 }
 func (fr *Frame) doRLock(id Term, pos token.Pos) {
 	vc := fr.vc
-	fr.lockOblige("lock.relock", "RLock", pos, eq(sel(fr.lockW(), id), "0"))
+	// sync.RWMutex: "if a goroutine holds a RWMutex for reading and another goroutine might call Lock, no
+	// goroutine should expect to be able to acquire a read lock until the initial read lock is released" -
+	// recursive read locking deadlocks as soon as a writer queues up in between
+	fr.lockOblige("lock.relock", "RLock", pos, and(eq(sel(fr.lockW(), id), "0"), eq(sel(fr.lockR(), id), "0")))
 	vc.setHeap(fr.st, lockR, lockSort, store(fr.lockR(), id, sx("+", sel(fr.lockR(), id), "1")))
 	fr.onAcquire(id, false, pos)
 }
